@@ -382,3 +382,67 @@ def _tell(pm, v):
     with contextlib.redirect_stdout(buf):
         r = pm.tell(hx(v))
     return enc.res(r)
+
+
+# ---- C16: stateful runs of the TCP client ----
+def _wire(kind, frs):
+    w = []
+    for fr in frs:
+        if kind == "beast":
+            w += [0x1A, fr["ty"]]
+            for b in fr["body"]:
+                w += [0x1A, 0x1A] if b == 0x1A else [b]
+        elif kind == "raw":
+            w += [42] + fr["text"] + [59] + fr["sep"]
+        else:
+            w += [36] + fr["pl"] + fr["tail"]
+    return w
+
+
+@reg("stream.run")
+def _stream_run(pm, v):
+    from pyModeS.extra.tcpclient import TcpClient
+    kind = v["kind"]
+    c = TcpClient("localhost", 0, kind)
+    read = {"beast": c.read_beast_buffer, "raw": c.read_raw_buffer, "skysense": c.read_skysense_buffer}[kind]
+    wire = _wire(kind, v["frs"])
+    cuts = [0] + list(v["cuts"]) + [len(wire)]
+    steps = []
+    for a, b in zip(cuts, cuts[1:]):
+        if b <= a:
+            continue
+        c.buffer.extend(wire[a:b])
+        msgs = read()
+        steps.append({"n": b - a, "out": [enc.text(m[0]) for m in (msgs or [])], "buflen": len(c.buffer)})
+    return {"t": "steps", "v": steps}
+
+
+@reg("net.run")
+def _net_run(pm, v):
+    from pyModeS.streamer.source import NetSource
+
+    class Flag:
+        value = False
+
+    class Pipe:
+        def __init__(self):
+            self.sent = []
+
+        def send(self, d):
+            self.sent.append(d)
+
+    s = NetSource("localhost", 0, "beast")
+    s.stop_flag = Flag()
+    s.raw_pipe_in = Pipe()
+    for batch in v["batches"]:
+        s.handle_messages([[bytes(m).hex().upper(), 1.0 + k] for k, m in enumerate(batch)])
+    adsb, commb, nts = [], [], 0
+    for d in s.raw_pipe_in.sent:
+        adsb += d["adsb_msg"]
+        commb += d["commb_msg"]
+        nts += len(d["adsb_ts"]) + len(d["commb_ts"])
+    adsb += s.local_buffer_adsb_msg
+    commb += s.local_buffer_commb_msg
+    nts += len(s.local_buffer_adsb_ts) + len(s.local_buffer_commb_ts)
+    return {"t": "net", "adsb": [list(bytes.fromhex(m)) for m in adsb], "commb": [list(bytes.fromhex(m)) for m in commb],
+            "batches_sent": len(s.raw_pipe_in.sent), "ts_ok": 1 if nts == len(adsb) + len(commb) else 0}
